@@ -16,8 +16,7 @@ THEOREMS = [
     "C03_select_sound", "C03_select_newest", "C03_select_newest_configured", "C03_select_best_key",
     "C03_wheel_before_sdist", "C03_wheel_before_sdist_filenames", "C03_binary_only_no_sdist",
     "C03_prerelease_only_when", "C03_prerelease_declarative", "C03_select_complete", "C03_select_live",
-    "C03_fallback_recursion",
-]
+    "C03_fallback_recursion", "C03_names_differing_in_separators_or_case_are_one_project"]
 RULE = ("candidate sets generated as FILE NAMES (wheels with tags of the running interpreter and foreign ones, build "
         "tags, sdists with 4 extensions, finals/pre/post/dev/epoch/local versions, duplicates, respelled and wrong "
         "project names, shuffled; 15% malformed names) turned into candidates by the real filename_to_candidate and "
